@@ -196,13 +196,14 @@ Qed.
 Lemma drive_packet_wq : forall fuel w, wq w (fst (drive_packet fuel w)).
 Proof. intros. unfold drive_packet. destruct (negb _); [apply wq_refl | apply drive_loop_wq]. Qed.
 
-Lemma fill_wq : forall fuel d w, wq w (fst (fill_packet_reader fuel d w)).
+Lemma fill_go_wq : forall fuel y d w, wq w (fst (fill_go fuel y d w)).
 Proof.
-  induction fuel as [|f IH]; intros d w; cbn [fill_packet_reader]; [apply wq_refl|].
+  induction fuel as [|f IH]; intros y d w; cbn [fill_go]; [apply wq_refl|].
   destruct (packet_available _); [apply wq_refl|].
   destruct (receive_buffer (s_reader (w_sess w))) as [r' [win|]].
   - assert (H0 : wq w (upd_sess w (set_reader (w_sess w) r'))) by qstep0.
     destruct (N.eqb win 0); [exact H0|].
+    destruct (timer_fired y d _); [eapply wq_trans; [exact H0 | apply wq_same; split; reflexivity]|].
     pose proof (io_read_sess win d (upd_sess w (set_reader (w_sess w) r'))) as Hs.
     destruct (io_read win d (upd_sess w (set_reader (w_sess w) r'))) as [w1 r]. cbn [fst] in Hs.
     assert (H1 : wq w w1) by (eapply wq_trans; [exact H0 | apply wq_same; exact Hs]).
@@ -211,6 +212,8 @@ Proof.
     eapply wq_trans; [exact H1|]. eapply wq_trans; [|apply IH]. qstep0.
   - qstep0.
 Qed.
+Lemma fill_wq : forall fuel d w, wq w (fst (fill_packet_reader fuel d w)).
+Proof. intros. apply fill_go_wq. Qed.
 
 Lemma wait_for_progress_wq : forall fuel w, wq w (fst (wait_for_progress fuel w)).
 Proof.
